@@ -12,7 +12,7 @@ EXTENDS Naturals, Integers, Sequences, FiniteSets
 CONSTANTS BufLen,      \* buf_len >= 2
           StartIdx,    \* initial value of readi = writei
           ProdProg,    \* sequence of [k |-> "put"|"putchar"|"empty", d |-> byte]  (ringbuf_empty is a role-neutral query: "was the ring idle?")
-          ConsProg,    \* sequence of "get" | "empty"
+          ConsProg,    \* sequence of "get" | "empty" | "wait"  (wait: the polling loop  while (ringbuf_empty(rb)) ;  )
           Discipline
 
 VARIABLES geo,                 \* [len, start, pp, cp] - constant during an execution
@@ -33,7 +33,7 @@ Inc(i) == IF i + 1 >= geo.len THEN i + 1 - geo.len ELSE i + 1
 Occ == (writei + geo.len - readi) % geo.len      \* unread bytes
 
 PcOfP(g, i) == IF i > Len(g.pp) THEN "Done" ELSE IF g.pp[i].k = "empty" THEN "PEmptyLoadR" ELSE "PutLoadW"
-PcOfC(g, i) == IF i > Len(g.cp) THEN "Done" ELSE IF g.cp[i] = "get" THEN "GetLoadR" ELSE "EmptyLoadR"
+PcOfC(g, i) == IF i > Len(g.cp) THEN "Done" ELSE IF g.cp[i] = "get" THEN "GetLoadR" ELSE IF g.cp[i] = "wait" THEN "WaitLoadR" ELSE "EmptyLoadR"
 
 Start(g) ==
   [readi |-> g.start, writei |-> g.start, mem |-> [i \in 0..(g.len-1) |-> 0],
@@ -169,8 +169,25 @@ EmptyLoadW ==
   /\ Sched(C, PcOfC(geo, iC + 1)) /\ Obs(C, "load", "writei", <<Call("empty", IF lr = writei THEN 1 ELSE 0)>>)
   /\ UNCHANGED <<readi, writei, mem, pcP, iP, lw, nw, lr, putSeq, gotSeq>>
 
+(* the consumer polls: ringbuf_empty again and again until it says "not empty" (each round is two loads) *)
+WaitLoadR ==
+  /\ pcC = "WaitLoadR" /\ Runnable(C)
+  /\ lr' = readi
+  /\ pcC' = "WaitLoadW"
+  /\ Sched(C, "x") /\ Obs(C, "load", "readi", <<>>)
+  /\ UNCHANGED <<readi, writei, mem, pcP, iP, lw, nw, iC, putSeq, gotSeq>>
+
+WaitLoadW ==
+  /\ pcC = "WaitLoadW" /\ Runnable(C)
+  /\ IF lr = writei
+       THEN /\ iC' = iC /\ pcC' = "WaitLoadR"                       \* still empty: once more round the loop
+            /\ Sched(C, "x") /\ Obs(C, "load", "writei", <<>>)
+       ELSE /\ iC' = iC + 1 /\ pcC' = PcOfC(geo, iC + 1)
+            /\ Sched(C, PcOfC(geo, iC + 1)) /\ Obs(C, "load", "writei", <<Call("wait", 0)>>)
+  /\ UNCHANGED <<readi, writei, mem, pcP, iP, lw, nw, lr, putSeq, gotSeq>>
+
 PStep == PutLoadW \/ PutLoadR \/ PutStore \/ PutPub \/ PEmptyLoadR \/ PEmptyLoadW
-CStep == GetLoadR \/ GetLoadW \/ GetRead \/ GetPub \/ EmptyLoadR \/ EmptyLoadW
+CStep == GetLoadR \/ GetLoadW \/ GetRead \/ GetPub \/ EmptyLoadR \/ EmptyLoadW \/ WaitLoadR \/ WaitLoadW
 Step(c) == IF c = P THEN PStep ELSE CStep
 Next == PStep \/ CStep
 Spec == Init /\ [][Next]_vars
@@ -200,7 +217,8 @@ NoOverwriteUnread ==
 PutFailJustified == [][(pcP = "PutLoadR" /\ nw = readi) => Occ = geo.len - 1]_vars
 (* get returns -1 / empty returns true only when the buffer was empty at the instant it looked *)
 GetFailJustified == [][((pcC = "GetLoadW" \/ pcC = "EmptyLoadW") /\ lr = writei) => Occ = 0]_vars
-EmptyFalseJustified == [][(pcC = "EmptyLoadW" /\ lr # writei) => Occ > 0]_vars
+EmptyFalseJustified == [][((pcC = "EmptyLoadW" \/ pcC = "WaitLoadW") /\ lr # writei) => Occ > 0]_vars
+WaitEndsWithData == [][(pcC = "WaitLoadW" /\ iC' # iC) => Occ > 0]_vars      \* the polling loop is left only when there is something to get
 
 Safety == TypeOK /\ FifoExact /\ Window
 =============================================================================
